@@ -5,18 +5,20 @@ use vbelief::world::World;
 use std::time::Instant;
 fn main() {
     let k: usize = std::env::args().nth(1).and_then(|s| s.parse().ok()).unwrap_or(48);
+    let rounds: usize = std::env::args().nth(2).and_then(|s| s.parse().ok()).unwrap_or(10);
     let mut groups = Vec::new();
-    for i in 0..2000u32 {
+    for i in 0..(k as u32 / 6).max(1) {
         let a = Spec::simple((i % 3) as u8, (i % 8) as u8, Stance::ALL[(i % 3) as usize], [0, 3, 6, 9][(i % 4) as usize]);
         let b = Spec::simple(((i / 3) % 3) as u8, ((i / 8) % 8) as u8, Stance::Support, 6);
         let c = Spec::simple(((i / 9) % 3) as u8, ((i / 64) % 8) as u8, Stance::Support, 9);
         groups.push(permutations(&[a, b, c]).iter().map(|p| Case::of_specs(false, p)).collect::<Vec<_>>());
     }
-    for (ep, rs) in [(false, false), (true, true)] {
-        let mut w = World::new("p");
-        let plan = Plan { queries: vec![(3, 0)], entry_points: ep, restab: rs, batch_cases: k };
+    let mut w = World::new("p");
+    let plan = Plan { queries: vec![(3, 0)], entry_points: false, restab: false, batch_cases: k };
+    for r in 0..rounds {
+        let (r0, q0) = (w.t_record, w.t_query);
         let t = Instant::now();
         let o = runner::run_groups(&mut w, &groups, &plan, None);
-        println!("k={k} ep={ep} histories={} total {:?} record {:?} query {:?} statements {} queries {} viol {}", o.histories, t.elapsed(), w.t_record, w.t_query, w.statements, w.queries, o.violations.len());
+        println!("round {r} k={k} histories={} total {:?} record {:?} query {:?} viol {}", o.histories, t.elapsed(), w.t_record - r0, w.t_query - q0, o.violations.len());
     }
 }
